@@ -1858,7 +1858,9 @@ def c19(tier):
                 "is replayed %s against the real svgbob_cli binary with seeded random values and inputs; the trace "
                 "specification evaluates CliOK (exit status, stdout = document + newline / file verbatim, diagnostic "
                 "and no partial output on failure) with the library's own conversion for the mapped settings as "
-                "reference; plus build-mode scenarios (random directories, output dir, missing dir). every scenario "
+                "reference; batch mode: CliBuild.tla (directory listed in any order; entries skipped, converted or failing "
+                "because the output path is taken) model-checked and every scenario replayed on disk, plus random "
+                "directories (output dir, relative paths, missing dir). every scenario "
                 "is non-trivial" % ("once" if tier == "quick" else "8 times"))
     r = common.rng("C19")
     cli, _srv = common.build_bins()
@@ -1889,6 +1891,28 @@ def c19(tier):
             run.add_event({"props": ["C19"], "sc": {"opts": sc["opts"], "inmode": sc["inmode"], "fault": sc["fault"]}, "ob": ob},
                           {"input": text, "scenario": sc, "cli": info})
     run.replayed = len(jobs)
+    # batch mode on the model: CliBuild.tla (directory listing in any order, skipped / converted / failed entries);
+    # every scenario is laid out on disk and replayed: same files written, same status (difference = drift) and
+    # BuildOK on the observation
+    cfgb = os.path.join(common.rundir(), "MC_C19b.cfg")
+    with open(cfgb, "w") as f:
+        f.write('CONSTANTS\n  Stems = {"a", "net.v1", "net.v2"%s}\nSPECIFICATION Spec\nPROPERTY Terminates\n'
+                'INVARIANTS OneDocumentPerFile NoCollision ExitIffSuccess DiagnosticOnFailure Emit\nCHECK_DEADLOCK FALSE\n'
+                % ("" if tier == "quick" else ', "x y"'))
+    resb = run.model("CliBuild", cfgb, timeout=3000)
+    bscens = common.tla_json_strings(resb["lines"], "REPLAY")
+
+    def one_b(job):
+        i, sc = job
+        return shells.run_build_scenario(cli, common.rng("C19/s%d" % i), sc, texts, convert, work, i)
+    with ThreadPoolExecutor(max_workers=common.NCPU) as ex:
+        for (b, ob, info, same), sc in zip(ex.map(one_b, list(enumerate(bscens))), bscens):
+            run.replayed += 1
+            if not same:
+                run.drift += 1
+                if len(run.drift_samples) < 5:
+                    run.drift_samples.append({"scenario": sc, "real": info})
+            run.add_event({"props": ["C19build"], "build": b, "ob": ob}, {"build": b, "scenario": sc, "cli": info})
     nb = 40 if tier == "quick" else 600
     for i in range(nb):
         b, ob, info = shells.run_build(cli, common.rng("C19/b%d" % i), [r.choice(texts) for _ in range(4)], convert, work, i)
